@@ -127,10 +127,15 @@ def build_group_c(g, L0, allc, scratch, vacuity=False):
             if c.ghost_entry and body is not None and not with_loops:
                 fn = fn.replace('/*@ENTRY %s@*/' % flat, ' '.join(c.ghost_entry), 1)
             return decl + '\n' + fn
-        return ct.splice(flat, sig, body, c, with_fn, with_loops, tab[flat]['loops'], extra, ghost_only=gonly)
+        res = ct.splice(flat, sig, body, c, with_fn, with_loops, tab[flat]['loops'], extra, ghost_only=gonly)
+        if c.ghost_entry and body is not None and not with_loops and flat == enforce:
+            # a bounded group (loop contracts not applied) still needs the entry snapshots its ensures clauses refer to
+            res = res.replace('/*@ENTRY %s@*/' % flat, ' '.join(c.ghost_entry), 1)
+        return res
 
     g['_has_loop_contracts'] = any(ct_of.get(f, f) in allc and f in tab and (allc[ct_of.get(f, f)].loops) for f in loops_for)
     g['_enforce_fn'] = enforce_fn
+    g['_extern_calls'] = set(L.extern_calls)
     g['_enforce_ct'] = enforce_ct
     part1, part2 = L.emit(cxx2c.HEADER, splice=sp, split=True)
     cfile = os.path.join(scratch, g['name'] + ('.vac' if vacuity else '') + '.c')
@@ -236,11 +241,14 @@ def cbmc_group(g, cfile, scratch, tag, props=None, trace=True):
     rc, out, err, _ = run(['goto-cc', '--function', entry, cfile, '-o', base + '.a.gb'], 300)
     if rc != 0:
         raise Undecided('goto-cc failed for %s:\n%s' % (g['name'], (out + err)[-3000:]))
-    plain = not g.get('enforce') and not g.get('replace') and not g.get('replace_extern')
+    plain = not g.get('enforce') and not g.get('replace') and not g.get('replace_extern') and not g.get('replace_extern_if_called')
     cmd = ['goto-instrument', '--dfcc', entry]
     if g.get('enforce'):
         cmd += ['--enforce-contract', g['enforce']]   # 'f' or 'f/contract_variant'
-    for r in list(g.get('replace', [])) + list(g.get('replace_extern', [])):
+    # replace_extern_if_called: libc/libm contracts that apply only when the lowered code calls the function at all
+    # (dfcc refuses to replace a function that is not in the binary)
+    opt = [r for r in g.get('replace_extern_if_called', []) if r in g.get('_extern_calls', ())]
+    for r in list(g.get('replace', [])) + list(g.get('replace_extern', [])) + opt:
         cmd += ['--replace-call-with-contract', r]
     if g.get('apply_loop_contracts', g.get('_has_loop_contracts', False)):
         cmd += ['--apply-loop-contracts']
@@ -368,6 +376,7 @@ def native_replay(g, L, allc, inputs_path, scratch, pid):
     if lib is None:
         return 'builderror', 'building /repo/src natively failed:\n' + liblog
     cmd = ['g++', '-std=c++17', '-g', '-O0', '-fsanitize=address,undefined', '-fno-sanitize-recover=undefined',
+           '-fno-access-control',   # contracts are also put on private helper methods (e.g. RobustPath::simple_scale)
            '-DNDEBUG', '-w', '-I' + os.path.join(REPO, 'include'), '-I' + os.path.join(REPO, 'external'),
            '-I' + nd, '-x', 'c++'] + srcs + ['-x', 'none', lib, '-o', exe, '-lz', '-lqhull_r', '-lm'] + g.get('native_ldflags', [])
     rc, out, err, _ = run(cmd, 600, mem_kb=64 * 1024 * 1024)
